@@ -59,6 +59,8 @@ def run(tier):
     rule_R5(res, prog)
     rule_R6(res, prog, cg)
     rule_R3l(res, prog)
+    rule_R7(res, prog)
+    rule_R8(res, prog)
     return res.finish()
 
 
@@ -589,3 +591,155 @@ def rule_R3l(res, prog):
                 res.instance("C02.R3l", "%s:%s %s(.., %s)" % (name, ln, c["fn"], pp(L)[:30]), ok, finding=f_)
     res.floor("C02.R3l", 1)
 
+
+def rule_R7(res, prog):
+    """What is delivered is exactly the authenticated content: in the record decoders a byte count accumulated in a loop
+    over record bytes (TLS 1.3 inner-plaintext padding scan) and then used outside the loop to cut the plaintext cannot
+    wrap - the counter's type holds every record length (>= 16 bits).  A narrower counter makes the receiver deliver
+    padding (and the content-type byte) as application data for records padded with 256 bytes or more."""
+    from sa import cfgutil as cu
+    from sa.pp import pp
+    from sa.ir import walk
+    rid = "C02.R7"
+    res.rule(rid, "a length counted in a loop over record bytes and used to cut the plaintext has a type that holds any record length")
+    NARROW = {"unsigned char", "char", "signed char", "uint8_t", "uint8", "int8_t", "_Bool", "bool", "psBool_t"}
+    n = 0
+    for name in ("matrixSslDecodeTls13", "matrixSslDecodeTls12AndBelow", "matrixSslDecode"):
+        fn = prog.functions.get(name) or next((f for f in prog.functions.values() if f.name == name), None)
+        if fn is None:
+            continue
+        # blocks on a cycle
+        succ = {b["id"]: [sc.get("b") for sc in b["succ"] if sc.get("b") is not None] for b in fn.blocks}
+
+        def reach(src):
+            seen, st = set(), list(succ.get(src, []))
+            while st:
+                x = st.pop()
+                if x in seen:
+                    continue
+                seen.add(x)
+                st.extend(succ.get(x, []))
+            return seen
+        cyc = {}
+        for b in fn.blocks:
+            r_ = reach(b["id"])
+            if b["id"] in r_:
+                cyc[b["id"]] = r_
+        counters = {}
+        for b in fn.blocks:
+            if b["id"] not in cyc:
+                continue
+            for i, ln, x in cu.block_exprs(b):
+                for nd in walk(x):
+                    v = None
+                    if nd.get("k") == "un" and nd["op"] in ("post++", "pre++"):
+                        v = strip(nd["e"])
+                    elif nd.get("k") == "bin" and nd["op"] == "+=":
+                        v = strip(nd["l"])
+                    if v is not None and v.get("k") == "var" and v.get("sc") == "l" and "id" in v and \
+                            "*" not in (v.get("t") or ""):
+                        counters.setdefault(v["id"], (v, ln, set()))[2].add(b["id"])
+        for vid, (v, ln, blocks) in sorted(counters.items()):
+            loop = set()
+            for bid in blocks:
+                loop |= cyc[bid] & set(k for k in cyc if bid in cyc[k])
+            # the loop is bounded by data, not by a constant test of the counter itself
+            const_bound = False
+            for bid in loop:
+                t = fn.bmap[bid].get("term")
+                if t is not None and "c" in t:
+                    for nd in walk(t["c"]):
+                        if nd.get("k") == "bin" and nd["op"] in ("<", "<=", ">", ">=", "!=") and \
+                                (strip(nd["l"]) or {}).get("id") == vid and (strip(nd["r"]) or {}).get("k") == "int":
+                            const_bound = True
+            if const_bound:
+                continue
+            # used outside the loop in arithmetic on a length / pointer
+            used = None
+            for b in fn.blocks:
+                if b["id"] in loop:
+                    continue
+                for i, l2, x in cu.block_exprs(b):
+                    for nd in walk(x):
+                        if nd.get("k") == "bin" and nd["op"] in ("-=", "+=", "-", "+") and \
+                                any(m.get("k") == "var" and m.get("id") == vid for m in walk(nd["r"])):
+                            used = used or (l2, pp(nd)[:40])
+            if used is None:
+                continue
+            n += 1
+            ok = (v.get("t") or "") not in NARROW
+            f_ = None
+            if not ok:
+                f_ = Finding(PROP, rid, fn.name, "%s counts record bytes in a %s" % (v["n"], v.get("t")),
+                             "%s:%s %s(): %s (type %s) is incremented once per record byte in the loop at line %s and then used in "
+                             "`%s` (line %s): the count wraps at 256, so a record padded with 256 or more bytes is delivered with "
+                             "padding and content-type bytes appended to the content" % (
+                                 fn.relfile, ln, fn.name, v["n"], v.get("t"), ln, used[1], used[0]), file=fn.relfile, line=ln)
+            res.instance(rid, "%s: counter %s (%s) incremented at line %s, used at line %s" % (fn.name, v["n"], v.get("t"), ln, used[0]),
+                         ok, finding=f_)
+    res.floor(rid, 1)
+
+
+def rule_R8(res, prog):
+    """The plaintext handed out is the one that was authenticated: offsets into the receive buffer that are derived from
+    pointer differences are not double counted.  An accumulation `acc += (p - base)` inside a loop (goto / while back
+    edge) counts the part of the buffer before the previous position again unless `base` advances in the loop or the
+    accumulator is reset there."""
+    from sa import cfgutil as cu
+    from sa.ir import walk
+    from sa.pp import pp
+    rid = "C02.R8"
+    res.rule(rid, "no offset is accumulated from an absolute pointer difference inside a loop (record-layer files)")
+    n = 0
+    for fn in sorted(prog.functions.values(), key=lambda f: f.qname):
+        if not fn.relfile.startswith("matrixssl/") or "/test/" in fn.relfile or not fn.blocks:
+            continue
+        succ = {b["id"]: [sc.get("b") for sc in b["succ"] if sc.get("b") is not None] for b in fn.blocks}
+
+        def reach(src):
+            seen, st = set(), list(succ.get(src, []))
+            while st:
+                x = st.pop()
+                if x in seen:
+                    continue
+                seen.add(x)
+                st.extend(succ.get(x, []))
+            return seen
+        for b in fn.blocks:
+            for i, ln, x in cu.block_exprs(b):
+                for nd in walk(x):
+                    if nd.get("k") != "bin" or nd["op"] != "+=":
+                        continue
+                    r = strip(nd["r"])
+                    while r is not None and r.get("k") == "cast":
+                        r = strip(r["e"])
+                    if r is None or r.get("k") != "bin" or r["op"] != "-" or "*" not in ((strip(r["l"]) or {}).get("t") or ""):
+                        continue
+                    n += 1
+                    rb = reach(b["id"])
+                    ok = True
+                    why = "not in a loop"
+                    if b["id"] in rb:
+                        cyc = set(k for k in rb if b["id"] in reach(k)) | {b["id"]}
+                        base, acc = cu.ftext(strip(r["r"])), cu.ftext(strip(nd["l"]))
+                        advances = False
+                        for bid in cyc:
+                            for i2, l2, x2 in cu.block_exprs(fn.bmap[bid]):
+                                for m in walk(x2):
+                                    if m is nd:
+                                        continue
+                                    if m.get("k") == "bin" and m["op"] in ("=", "+=") and cu.ftext(strip(m["l"])) in (base, acc):
+                                        advances = True
+                                    if m.get("k") == "un" and "++" in m["op"] and cu.ftext(strip(m["e"])) == base:
+                                        advances = True
+                        ok = advances
+                        why = "in a loop; the base / accumulator is re-assigned there" if ok else "in a loop with a fixed base"
+                    f_ = None
+                    if not ok:
+                        f_ = Finding(PROP, rid, fn.name, "offset %s double counted" % pp(strip(nd["l"]))[:30],
+                                     "%s:%s %s(): `%s` runs on a loop (the statement can be reached again from itself) while neither %s nor "
+                                     "the accumulator is re-assigned in that loop: from the second iteration on the bytes before the previous "
+                                     "position are counted again, and the offset later used to hand out / skip data points to the wrong place" % (
+                                         fn.relfile, ln, fn.name, pp(nd)[:60], pp(strip(r["r"]))[:30]), file=fn.relfile, line=ln)
+                    res.instance(rid, "%s:%s %s (%s)" % (fn.name, ln, pp(nd)[:60], why), ok, finding=f_)
+    res.floor(rid, 3)
